@@ -238,6 +238,14 @@ theorem T_closed (z : Renderer ℚ ℚ) (dx dy : ℚ) (vb : ViewBox ℚ)
   simp only [T, hsx, hbx, hsy, hby]
   congr 1 <;> ring
 
+/-- the two together: after `SetRasterizer r; Reset vb` the map is the one of `vb` and `r` -/
+theorem T_after_reset (z0 : Renderer ℚ ℚ) (r : Rect) (posInf : ℚ) (vb : ViewBox ℚ) (pal : Palette)
+    (hr : r.empty = false) (p : Pt ℚ) :
+    T ((z0.setRasterizer r).reset posInf vb pal) p =
+      ⟨(r.dx : ℚ) * (p.x - vb.minX) / (vb.maxX - vb.minX), (r.dy : ℚ) * (p.y - vb.minY) / (vb.maxY - vb.minY)⟩ := by
+  obtain ⟨-, -, h1, h2, h3, h4⟩ := transform_after_reset z0 r posInf vb pal hr
+  exact T_closed _ _ _ vb h1 h2 h3 h4 p
+
 /-- `T` maps the viewBox's corners to the corners of the target rectangle `[0,dx] × [0,dy]` -/
 theorem T_corners (z : Renderer ℚ ℚ) (dx dy : ℚ) (vb : ViewBox ℚ)
     (hsx : z.scaleX = dx / (vb.maxX - vb.minX)) (hbx : z.biasX = -vb.minX)
